@@ -8,7 +8,7 @@ import sys
 
 import numpy as np
 
-from ..common import HOT_BYTES, hx, run_cases, sk, unhx, VERIF_HOME
+from ..common import HOT_BYTES, hx, pick, run_cases, sk, unhx, VERIF_HOME
 from ..refs import hashes_ref
 
 ID = "C11"
@@ -17,7 +17,8 @@ TECHNIQUE = "differential monitor: real jitted hashes vs independent pure-Python
 RULE = ("case = one batch of (bytes, seed) inputs of one length class; every length 0..257 is covered, byte values are biased to "
         "00/7f/80/ff, seeds include 0, 1, 2^32-1, 2^32, 2^63, 2^64-1; each input is hashed by the three real functions and "
         "by the references; the same bytes are rebuilt six ways and sliced at offsets 0..15; non-trivial = batch with "
-        "length >= 1 (tail or block code exercised); distinct = by input digest")
+        "length >= 1 (tail or block code exercised); distinct = by input digest; steered batches: for every length 0..41 and some longer, "
+        "every internal state position x 13 (8 for murmur3) special values, constructed by inverting the reference")
 ASSUMPTIONS = ["the references were written from the published FastHash/MurmurHash3 sources and validated against published Murmur3 vectors",
                "lengths 0..257 (to 4096 in the thorough tier) stand for all lengths: the algorithms are block loops plus a tail switch"]
 LEVEL_TEXT = ("Differential run-time comparison of the three real hash functions with independent references on tens of "
@@ -68,6 +69,68 @@ def gen_cases(ctx):
                 inputs.append([hx(b), s64, s32])
             yield {"len": n, "inputs": inputs}
         rep += 1
+
+
+SPECIAL64 = [0, 1, 2**64 - 1, 2**64 - 2, 2**63, 2**63 - 1, 2**32, 2**32 - 1, hashes_ref.FH_M, hashes_ref.FH_MIX,
+             0x0000000100000001, (5 << 32) | 4, 0xFFFFFFFF00000000]
+SPECIAL32 = [0, 1, 2**32 - 1, 2**32 - 2, 2**31, 2**31 - 1, 0xE6546B64, 2**16]
+
+
+def gen_steered(ctx):
+    """Inputs built by inverting the block functions of the *reference* so that one internal state (before any block, after any
+    block, after the tail) or the returned value is a special value (0, all-ones, 2^63, the multipliers, values whose 32-bit fold
+    is 0 or 2^32-1).  Random inputs reach such states with probability 2^-64 / 2^-32 each."""
+    rng = ctx.rng("steered")
+    lengths = list(range(0, 42)) + [48, 63, 64, 65, 71, 72, 100, 257]
+    if ctx.thorough:
+        lengths += [int(x) for x in rng.integers(42, 600, 30)]
+    for n in lengths:
+        inputs = []
+        base = bytes(rng.integers(0, 256, n, dtype=np.uint8))
+        seed = int(rng.integers(0, 2**64, dtype=np.uint64))
+        n_states = len(hashes_ref.fasthash64_states(base, seed))
+        idxs = list(range(n_states)) if n_states <= 8 else [0, 1, 2, n_states - 3, n_states - 2, n_states - 1]
+        for idx in idxs + ["out"]:
+            for v in SPECIAL64:
+                b, sd = hashes_ref.fasthash64_steer(base, seed if rng.random() < 0.7 else pick(rng, SEEDS64), idx, v)
+                inputs.append(["fh", hx(b), sd, idx, v])
+        seed32 = int(rng.integers(0, 2**32))
+        n_states = len(hashes_ref.murmur3_states(base, seed32))
+        idxs = list(range(n_states)) if n_states <= 8 else [0, 1, 2, n_states - 3, n_states - 2, n_states - 1]
+        for idx in idxs + ["out"]:
+            for v in SPECIAL32:
+                b, sd = hashes_ref.murmur3_steer(base, seed32 if rng.random() < 0.7 else pick(rng, SEEDS32), idx, v)
+                inputs.append(["mm", hx(b), sd, idx, v])
+        yield {"steered": True, "len": n, "inputs": inputs}
+
+
+def run_steered(case, ctx, mon):
+    s = sk()
+    f64, f32, mm3 = s.hashes.fasthash64, s.hashes.fasthash32, s.hashes.murmur3
+    for fam, kh, seed, idx, v in case["inputs"]:
+        b = unhx(kh)
+        if fam == "fh":
+            st = hashes_ref.fasthash64_states(b, seed)
+            r64 = hashes_ref.fasthash64(b, seed)
+            hit = (r64 == v) if idx == "out" else (st[idx] == v)
+            g64 = int(mon.api(f64, b, seed))
+            mon.check(g64 == r64, "fasthash64==reference(steered-state)", key=kh, seed=seed, state_index=idx, state_value=v, got=g64, want=r64)
+            g32 = int(mon.api(f32, b, seed))
+            r32 = hashes_ref.fasthash32(b, seed)
+            mon.check(g32 == r32, "fasthash32==reference(steered-state)", key=kh, seed=seed, state_index=idx, state_value=v, got=g32, want=r32)
+            mon.seen("steered_fh", f"{'out' if idx == 'out' else ('first' if idx == 0 else ('last' if idx == len(st) - 1 else 'inner'))}:{v:x}")
+            if r32 in (0, 0xFFFFFFFF):
+                mon.count("steered_fasthash32_extreme_outputs")
+        else:
+            st = hashes_ref.murmur3_states(b, seed)
+            rm = hashes_ref.murmur3_32(b, seed)
+            hit = (rm == v) if idx == "out" else (st[idx] == v)
+            gm = int(mon.api(mm3, b, seed))
+            mon.check(gm == rm, "murmur3==reference(steered-state)", key=kh, seed=seed, state_index=idx, state_value=v, got=gm, want=rm)
+            mon.seen("steered_mm", f"{'out' if idx == 'out' else ('first' if idx == 0 else ('last' if idx == len(st) - 1 else 'inner'))}:{v:x}")
+        mon.check(hit, "harness:steering-reached-the-requested-state", family=fam, key=kh, seed=seed, state_index=idx, state_value=v)
+        mon.count("steered_inputs")
+    mon.nontrivial(True)
 
 
 def variants(b: bytes):
@@ -337,11 +400,14 @@ def run(ctx, mon):
         views = [(int(a), int(min(n - 1, a + ln))) for a in range(0, 17) for ln in (0, 1, 2, 3, 4, 5, 7, 8, 9, 15, 16, 17, 24, 31)]
         kv.append({"kernel_views": True, "buf": hx(buf), "views": views, "seed64": SEEDS64[i % len(SEEDS64)], "seed32": SEEDS32[i % len(SEEDS32)]})
     run_cases(ctx, mon, kv, run_kernel_views, time_bound=False)
+    run_cases(ctx, mon, gen_steered(ctx), run_steered, time_bound=False)
     run_cases(ctx, mon, gen_cases(ctx), run_case)
 
 
 def replay(case, ctx, mon):
-    if "kernel_views" in case:
+    if "steered" in case:
+        run_steered(case, ctx, mon)
+    elif "kernel_views" in case:
         run_kernel_views(case, ctx, mon)
     elif "kernel_slices" in case:
         run_kernel_slices(case, ctx, mon)
@@ -361,4 +427,7 @@ def floors(mon, ctx):
     mon.floor("second interpreter runs", mon.counters["second_interpreter_runs"], 2)
     mon.floor("in-kernel slice windows", mon.counters["kernel_slice_windows"], 1000)
     mon.floor("hashes of jitted views", mon.counters["kernel_views"], 1000)
+    mon.floor("steered inputs (internal state or output forced to a special value)", mon.counters["steered_inputs"], 3000)
+    mon.floor("steered fasthash state classes (position x value)", len(mon.classes["steered_fh"]), 4 * len(SPECIAL64))
+    mon.floor("steered murmur3 state classes (position x value)", len(mon.classes["steered_mm"]), 4 * len(SPECIAL32))
     mon.floor("in-kernel slice length classes", len(mon.classes["kernel_slice_len_class"]), 3)
